@@ -724,6 +724,15 @@ class Function(dd._abc.Operator):
         self.node = node
         self.manager.incref(node)
 
+    def __copy__(
+            self
+            ) -> 'Function':
+        """Return new `Function` for the same node.
+
+        The copy holds its own reference to the node.
+        """
+        return Function(self.node, self.bdd)
+
     def __hash__(
             self
             ) -> int:
